@@ -127,8 +127,8 @@ func run(ci any, r *mon.Rec) {
 			if !errors.As(perr, &ep) || !validException(ep.Bytes()) {
 				r.Violate(c, "dispatcher-error-not-exception", mon.Attrs{"fc": c.FC}, fmt.Sprintf("%T %v", perr, perr))
 			}
-		} else if v == nil {
-			r.Violate(c, "dispatcher-nil", mon.Attrs{"fc": c.FC}, "nil request without error")
+		} else if libx.IsNilValue(v) {
+			r.Violate(c, "dispatcher-nil", mon.Attrs{"fc": c.FC}, fmt.Sprintf("nil request (%T) without error for the library's own frame % x", v, frame[:min(len(frame), 16)]))
 		}
 		if c.N == 0 {
 			r.Sample(map[string]any{"kind": "prefix", "frame": fmt.Sprintf("% x", frame[:min(len(frame), 20)]), "prefixes": len(frame) + 1})
@@ -286,8 +286,8 @@ func run(ci any, r *mon.Rec) {
 							continue
 						}
 						if perr == nil {
-							if v == nil {
-								r.Violate(c, "dispatcher-nil", mon.Attrs{"fc": c.FC}, "nil request without error")
+							if libx.IsNilValue(v) { // nil, or a nil pointer inside the interface: the server would hand it to the handler
+								r.Violate(c, "dispatcher-nil", mon.Attrs{"fc": c.FC}, fmt.Sprintf("n=%d frame % x: nil request (%T) without error: neither parsed nor rejected", n, fr[:min(n, 24)], v))
 							}
 							r.Distinct(mon.Mix(3, uint64(c.FC), uint64(ll), 0))
 							continue
